@@ -395,10 +395,11 @@ def judge_arbitrary(s, data, rec, opts, cls, full, line, slow):
     n = len(data)
     check_common(s, rec, n, opts, cls, det, slow, line)
     toks = full_tokens(rec) if full else None
-    ctoks = compact_of_full(toks) if full else compact_tokens(rec.get("ctok", ""))
-    if len(ctoks) != rec["ntok"]:
-        s.inconcl(f"token stream of case truncated? {len(ctoks)} vs {rec['ntok']}")
-    check_emitted(s, ctoks, rec, opts, cls, det)
+    if full or rec["acc"][0]:
+        ctoks = compact_of_full(toks) if full else compact_tokens(rec.get("ctok", ""))
+        if len(ctoks) != rec["ntok"]:
+            s.inconcl(f"token stream of case truncated? {len(ctoks)} vs {rec['ntok']}")
+        check_emitted(s, ctoks, rec, opts, cls, det)
     check_dom_vs_pull(s, rec, toks, cls, det)
     if not full:
         return
@@ -528,7 +529,8 @@ def shard_generated(binary, seed, idx, count, tmp, sweep_every=5):
         s.obs(f"sweep_{f}_{rel}")
         acc = rec["acc"]
         check_common(s, rec, len(d.data), opts, "sweep", det, slow, lines[li])
-        check_emitted(s, compact_tokens(rec.get("ctok", "")), rec, opts, "sweep", det)
+        if acc[0]:
+            check_emitted(s, compact_tokens(rec.get("ctok", "")), rec, opts, "sweep", det)
         if within:
             if not (acc[0] and acc[1] and acc[2]):
                 msg = rec["err"][1] if rec["err"] else (rec.get("derr") or "")
